@@ -11,7 +11,7 @@ RULE = ("every script of the C01/C02/C03/C09 generators is replicated at each fo
         "the spec, which makes all levels equal to each other; the same scripts run against a `pure` build (Rust intrinsics, no "
         "assembly) in the quick tier (plus the deterministic ones against prefer_intrinsics = C intrinsics) and additionally prefer_intrinsics, no_avx512, no_avx2, no_sse41, no_sse2 builds in the thorough "
         "tier (stock feature flags cross-check the hook); feature sets: harness/rs enables std+rayon+mmap+zeroize+serde+traits-preview, "
-        "harness/rs_min builds the crate with default-features = false and nothing else and runs the same scripts (minus the platform "
+        "a third build uses the ordinary release profile (no debug assertions / overflow checks) on the deterministic scripts; harness/rs_min builds the crate with default-features = false and nothing else and runs the same scripts (minus the platform "
         "hook); histories include re-use after reset and clone_from; non-trivial = script with >= 2 chunks of input; distinct = distinct script")
 ASSUMPTIONS = ["NEON and wasm cannot run on this machine and are outside the property's list; their kernel files are nevertheless translated and proved equal to the specification over trusted lane models (G38, G39)",
                "feature sets between 'none' and 'all optional features' are not built separately (each optional feature only adds cfg-gated items; G4 lists them)"]
@@ -56,6 +56,9 @@ def stages(tier, seed, witness_search=False):
         # the C intrinsics build (third kernel family) on the deterministic part: one-shot lengths and the xof boundary grids
         det = [sc for sc in scripts if "oneshot" in sc.tags or "boundary-grid" in sc.tags or "context-sequence" in sc.tags]
         st.append(LineStage("prefer_intrinsics-build", det, features=("prefer_intrinsics",), normalize=norm_all))
+    # the ordinary release profile (no debug assertions, no overflow checks) on the deterministic part: every forced platform
+    det2 = [sc for sc in scripts if "oneshot" in sc.tags or "boundary-grid" in sc.tags or "context-sequence" in sc.tags]
+    st.append(LineStage("no-debug-assertions-build", det2, normalize=norm_all, profile="relnd"))
     # the other end of the feature-set quantifier: the crate with default-features = false and no optional feature (harness/rs_min;
     # no platform hook there, so the `P plat` lines are dropped and the detected level is used), default and pure flavours
     seen, nodef = set(), []
@@ -81,6 +84,12 @@ def replay(d, lean_exe):
         return dict(still_fails=False, note="file scripts use scratch paths; re-run the check with the same VERIF_SEED")
     feats = ()
     st = d.get("stage", "")
+    if st == "no-debug-assertions-build":
+        from ..stage import LineStage
+        from .. import core
+        ls = LineStage("replay", [Script(d.get("ops", []))], normalize=norm_all, max_minimise=0, profile="relnd")
+        ok, exe, log = ls.build_impl()
+        return dict(still_fails=bool(core.run_pair(ls.scripts, exe, lean_exe, "rs", norm_all)))
     if st.startswith("no-default-features"):
         return replay_line(d, lean_exe, impl="rs_min", features=("pure",) if "pure" in st else (), normalize=norm_all)
     if st.endswith("-build") and st != "default-build":
